@@ -718,7 +718,7 @@ class Sandbox:
         self._module_overrides['__builtins__'] = builtins
         # Handle allowing *actual* printing to the real stdout console
         if self._module_overrides['__builtins__'].get('print') is not True:
-            self._current_stdout.append(io.StringIO())
+            self._current_stdout.append(mocked.CapturingStringIO())
         else:
             self._current_stdout.append(PrintingStringIO())
         # And do the patches
@@ -740,7 +740,7 @@ class Sandbox:
             captured = current_stdout.getvalue()
         except ValueError:
             # The student's code closed the stream it was printing to
-            captured = ""
+            captured = getattr(current_stdout, 'written_before_closing', "")
         self.append_output(captured, context)
 
     # Patching Functionality
